@@ -56,7 +56,7 @@ Proof.
 Qed.
 
 Lemma finish_same : forall s ends, ci s <> [] -> finish A s ends = finish B s ends.
-Proof. intros s ends Hn. unfold finish. rewrite (last_instr_same s Hn). reflexivity. Qed.
+Proof. intros s ends Hn. unfold finish. rewrite (last_instr_same s Hn), il_same. reflexivity. Qed.
 
 Lemma il_pos_ci : forall s, il B s <> i_instr_len B -> ci s <> [].
 Proof. intros s H Hc. apply H. unfold il. rewrite Hc. cbn [length]. lia. Qed.
@@ -76,13 +76,14 @@ Proof.
   rewrite (finish_same s2 (p_end p) Hn2).
   assert (Hpos3 : il B (finish B s2 (p_end p)) <> i_instr_len B).
   { assert (il B s2 <= il B (finish B s2 (p_end p))); [|unfold il in *; lia].
-    unfold finish. generalize (last_instr B s2). intros last. generalize (p_end p). intros ends.
+    unfold finish. generalize (last_instr B s2). intros last. generalize (existsb (Nat.eqb (il B s2)) (cj s2)). intros tg.
+    generalize (p_end p). intros ends.
     assert (G : forall acc, il B s2 <= il B acc ->
                 il B s2 <= il B (fold_left (fun acc e => match last with
-                  | Some li => if instr_eqb li e && instruction_eqb (fst e) I_EndExpression then acc else emit acc e None
+                  | Some li => if instr_eqb li e && instruction_eqb (fst e) I_EndExpression && negb tg then acc else emit acc e None
                   | None => emit acc e None end) ends acc)).
     { induction ends as [|e ends IHe]; intros acc Ha; cbn [fold_left]; [exact Ha|].
-      destruct last as [li|]; [destruct (instr_eqb li e && instruction_eqb (fst e) I_EndExpression)|];
+      destruct last as [li|]; [destruct (instr_eqb li e && instruction_eqb (fst e) I_EndExpression && negb tg)|];
         apply IHe; rewrite ?il_emit; lia. }
     apply G. lia. }
   generalize (finish B s2 (p_end p)) Hpos3. generalize (rev ps). clear -IH Hi Hj.
@@ -98,13 +99,12 @@ Qed.
 End Same.
 
 (* building into an object with empty tables whose last instruction is [L]
-   equals building into the empty object, unless the first body emits nothing
-   and [L] is EndExpression *)
+   equals building into the empty object: a first body that emits nothing has
+   its entry at the end of the stream, so its EndExpression is never skipped *)
 Theorem compile_last_irrelevant : forall L lit_ok t,
-  silent t = false \/ (match L with Some li => instr_eqb li (I_EndExpression, ONone) | None => false end) = false ->
   compile (mkInit 0 0 L) lit_ok t = compile empty_init lit_ok t.
 Proof.
-  intros L lit_ok t Hk. unfold compile.
+  intros L lit_ok t. unfold compile.
   set (A := mkInit 0 0 L). set (B := empty_init).
   assert (Hi : i_instr_len A = i_instr_len B) by reflexivity.
   assert (Hj : i_jump_len A = i_jump_len B) by reflexivity.
@@ -116,13 +116,15 @@ Proof.
   assert (Hil1 : il B s1 = 0) by reflexivity.
   assert (Hfin : finish A s2 default_end = finish B s2 default_end).
   { destruct (ci s2) as [|c0 cs] eqn:Ec.
-    - (* nothing emitted: the tree is silent, so L is not EndExpression *)
-      destruct Hk as [Hs|HL].
-      + exfalso. pose proof (proj2 (inl_grow B lit_ok _ _ _ _ _ _ _ Ei) eq_refl Hs) as Hg.
-        unfold il in Hg. rewrite Ec in Hg. unfold s1 in Hg. cbn in Hg. lia.
-      + unfold finish, last_instr, default_end. rewrite Ec. cbn [rev fold_left A B i_last_instr empty_init].
-        destruct L as [li|]; [|reflexivity]. rewrite HL. reflexivity.
-    - apply finish_same. rewrite Ec. discriminate. }
+    - (* nothing emitted: the entry names the end of the stream, the EndExpression is emitted whatever L is *)
+      destruct (inl_ext B lit_ok _ _ _ _ _ _ _ Ei) as [a0 [b0 [c0 [_ [_ [Hcj0 _]]]]]].
+      assert (TA : existsb (Nat.eqb (il A s2)) (cj s2) = true).
+      { rewrite Hcj0. unfold il. rewrite Ec. reflexivity. }
+      assert (TB : existsb (Nat.eqb (il B s2)) (cj s2) = true).
+      { rewrite Hcj0. unfold il. rewrite Ec. reflexivity. }
+      unfold finish, default_end. cbn [fold_left]. rewrite TA, TB. cbn [negb].
+      destruct (last_instr A s2); destruct (last_instr B s2); rewrite ?andb_false_r; reflexivity.
+    - apply finish_same; [exact Hi | rewrite Ec; discriminate]. }
   rewrite Hfin.
   destruct ps as [|q ps'].
   - reflexivity.
